@@ -303,6 +303,10 @@ func (w *World) closeEverything(prop string, variant int) (viols []Violation, mo
 		}})
 	}
 	perms := permutations(len(objs))
+	if w.fewCloseOrders && len(perms) > 2 {
+		// quick tier: the canonical order (handles, collection, store) and its reverse; thorough: every order
+		perms = [][]int{perms[0], perms[len(perms)-1]}
+	}
 	if variant >= len(perms) {
 		return nil, false
 	}
@@ -368,8 +372,9 @@ func init() {
 			Steps: []string{"M", "Pb", "Pe", "S+", "CS+", "I+", "IX", "SS+", "H-", "R"},
 			// two persisted rounds leaving at least two live keys in the store, plus one batch still in memory
 			Roots: [][]string{{"B0", "M", "Pb", "Pe", "B2", "M", "Pb", "Pe", "B0"}, {"B2", "M", "Pb", "Pe", "B1"}},
-			MaxB:  2, MaxD: 7, MaxK: 0, MaxH: 2, MaxR: 1, Deadline: tierDeadline(tier), WithRefs: true,
-			Note: "reference counters are part of the state key; oracle in every state: open handles still readable; terminal phase from every state: close the remaining handles, the collection and the store in every order, then no descriptor, no mapping, at most one data file"}
+			Devs:  []string{"m1"},
+			MaxB:  2, MaxD: 7, MaxK: 1, MaxH: 2, MaxR: 1, Deadline: tierDeadline(tier), WithRefs: true,
+			Note: "reference counters are part of the state key; oracle in every state: open handles still readable; terminal phase from every state: close the remaining handles, the collection and the store (quick: in the canonical order and its reverse; thorough: in every order), then no descriptor, no mapping, at most one data file"}
 		if tier == "thorough" {
 			sp.MaxB, sp.MaxD, sp.MaxK, sp.MaxH = 3, 9, 1, 3
 			sp.Devs = []string{"m1", "p1"}
@@ -378,7 +383,11 @@ func init() {
 		sp.Check = func(w *World, path []string) []Violation {
 			return append(withProp(w.viols, "C15"), w.handlesOracle("C15")...)
 		}
-		sp.Terminal = func(w *World, variant int) ([]Violation, bool) { return w.closeEverything("C15", variant) }
+		quick := tier != "thorough"
+		sp.Terminal = func(w *World, variant int) ([]Violation, bool) {
+			w.fewCloseOrders = quick
+			return w.closeEverything("C15", variant)
+		}
 		return sp
 	}
 	engines["C15"] = checkG1
